@@ -129,6 +129,8 @@ def run(ctx):
         ms = m if m in ("FAIL", "UNMODELLED") else m[2:]
         if ms == "UNMODELLED":
             continue
+        if ms == "FAIL" and gs != "FAIL" and diags != (i.split(" | ")[-1].strip() or "-"):
+            continue            # a placement diagnostic may hide a syntax failure (see stage 0e)
         if ms == "FAIL": ns_fail += 1
         else: ns_ok += 1
         if gs != ms:
@@ -705,6 +707,10 @@ def run(ctx):
         got = dump_to_sexpr(i) if diags == "-" and full else None
         gs = sx(normx(got)) if got else "FAIL"
         ms = m if m == "FAIL" else m[2:]
+        if ms == "FAIL" and gs != "FAIL" and any(x.startswith(CTX_IDS) for x in i.split(" | ")[-1].split(",")):
+            # a placement diagnostic was reported: the parser's net for constructs it gave up on (Parser-103) only speaks when NOTHING was
+            # diagnosed, so a syntax failure may hide behind it (tokens inside the root's extent that belong to no child): no verdict to compare
+            continue
         if ms == "FAIL": nb_fail += 1
         else: nb_ok += 1
         if gs != ms:
